@@ -83,11 +83,12 @@ def stringfOnFlakyAsIs (k : Nat) (format : Bytes) (args : List Arg) (sprintf : B
      else (false, (ws.take (k - 1)).flatten))
   else (true, ws.flatten)
 
-/-- Content-Type of `String` (0), `HTML` (1), `Data` (2) on a fresh response -/
+/-- Content-Type of `String` (0), `HTML` (1), `Data` (2), `SendStatus` (3), `NoContent` (4) on a fresh response -/
 def plainCType (kind : Nat) (ct : Bytes) : Bytes :=
   if kind == 0 then "text/plain".toList
   else if kind == 1 then "text/html".toList
-  else if ct.isEmpty then "application/octet-stream".toList else ct
+  else if kind == 2 then (if ct.isEmpty then "application/octet-stream".toList else ct)
+  else []      -- SendStatus (3), NoContent (4) set no content type
 
 /-- Content-Type after `String` / `Stringf`: kept when already set -/
 def stringfCType (pre : Bytes) : Bytes := if pre.isEmpty then "text/plain".toList else pre
